@@ -6,17 +6,18 @@
 package main
 
 import (
-	"math/big"
 	"bytes"
 	"context"
 	"encoding/json"
 	"flag"
 	"fmt"
 	"io"
+	"math/big"
 	"math/rand"
 	"net/http"
 	"net/http/httptest"
 	"os"
+	"runtime"
 	"sort"
 	"sync"
 	"sync/atomic"
@@ -282,6 +283,10 @@ func main() {
 			time.Sleep(10 * time.Millisecond)
 		}
 		time.Sleep(60 * time.Millisecond)
+		if mode == "flaky" || mode == "error" {
+			// a forwarder that tries again after a failed exchange does so a little later: it has the time to
+			time.Sleep(900 * time.Millisecond)
+		}
 		left := len(ch) // receipts nobody took out of the queue although the forwarder had five seconds and a service that answers
 		cancel()
 		if mode != "down" {
@@ -362,13 +367,12 @@ func main() {
 	}
 }
 
-
 // raceFull: a queue with one free slot and no forwarder, 16 connections submitting at the same moment:
 // exactly one may be accepted, the others must be told TOO_BUSY, and nobody may block.
 func raceFull(rnd *rand.Rand, key string, round int) {
 	verdict, detail := "ok", ""
 	total, blockedTotal := 0, 0
-	for rep := 0; rep < 60 && verdict == "ok"; rep++ {
+	for rep := 0; rep < 300 && verdict == "ok"; rep++ {
 		qcap := 4
 		ch := make(chan ncsclient.ReceiptPayload, qcap)
 		for i := 0; i < qcap-1; i++ {
@@ -376,7 +380,7 @@ func raceFull(rnd *rand.Rand, key string, round int) {
 			ch <- ncsclient.ReceiptPayload{Receipt: v.receipt, Hash: v.hash, Signature: v.sig}
 		}
 		const n = 16
-		var ready, finished int32
+		var ready, finished, spinning, gate int32
 		start := make(chan struct{})
 		var mu sync.Mutex
 		acc, busy, blocked, other := 0, 0, 0, 0
@@ -389,6 +393,12 @@ func raceFull(rnd *rand.Rand, key string, round int) {
 			go func() {
 				atomic.AddInt32(&ready, 1)
 				<-start
+				// all of them are on a processor, spinning, when the gate opens: they enter the handler within nanoseconds
+				// of each other (a closed channel alone wakes them one after the other)
+				atomic.AddInt32(&spinning, 1)
+				for atomic.LoadInt32(&gate) == 0 {
+					runtime.Gosched()
+				}
 				h.HandleReceipt(context.Background(), cap, msg)
 				mu.Lock()
 				if len(cap.msgs) != 1 {
@@ -413,6 +423,10 @@ func raceFull(rnd *rand.Rand, key string, round int) {
 			time.Sleep(time.Millisecond)
 		}
 		close(start)
+		for t0 := time.Now(); atomic.LoadInt32(&spinning) < n && time.Since(t0) < 2*time.Second; {
+			runtime.Gosched()
+		}
+		atomic.StoreInt32(&gate, 1)
 		// a submission that blocks blocks for good (nobody reads the queue): a generous deadline costs nothing on a
 		// correct tree and does not mistake a loaded machine for a blocked handler
 		deadline := time.Now().Add(5 * time.Second)
